@@ -178,6 +178,10 @@ func clauseLabel(c Clause, i int) string {
 
 // havoc forgets everything the loop may modify.
 func (fc *funcCtx) havoc(st *State, l *Loop) {
+	// allocation counter moves on; every slice value alive at the head points below it
+	nb0 := st.freshConst("allocbase", SInt)
+	st.assume(app("<=", app("+", st.allocBase, smtInt(int64(st.allocOff))), nb0))
+	st.allocBase, st.allocOff = nb0, 0
 	for c := range l.Cells {
 		old, ok := st.cells[c]
 		if !ok {
@@ -198,12 +202,15 @@ func (fc *funcCtx) havoc(st *State, l *Loop) {
 			// variable at loop entry and was allocated before the loop.
 			st.heaps[k] = nh
 			_ = old
+			if fc.frameChecked() {
+				// storage that existed when the function was entered is never written
+				// (that is what the `frame` obligations establish), so it still has its entry contents
+				if h0, ok := st.oldHeaps[k]; ok {
+					st.assume(fmt.Sprintf("(forall ((r Int)) (! (=> (< r %s) (= (select %s r) (select %s r))) :pattern ((select %s r))))", st.entryBase, nh, h0, nh))
+				}
+			}
 		}
 	}
-	// allocation counter moves on
-	nb := st.freshConst("allocbase", SInt)
-	st.assume(app("<=", app("+", st.allocBase, smtInt(int64(st.allocOff))), nb))
-	st.allocBase, st.allocOff = nb, 0
 	if l.Maps {
 		for id, ms := range st.maps {
 			ms.Dom = st.freshConst("dom", fmt.Sprintf("(Array %s Bool)", ms.KS))
@@ -259,6 +266,7 @@ func (fc *funcCtx) havocValue(st *State, old Value, hint string) Value {
 		st.assume(app("<=", "0", ln))
 		st.assume(app("<=", ln, cp))
 		st.assume(app("<=", "0", ref))
+		st.assume(app("<", ref, st.allocBase))
 		return SliceV{Ref: ref, Off: off, Len: ln, Cap: cp, Elem: o.Elem}
 	case StructV:
 		n := StructV{T: o.T}
@@ -479,12 +487,7 @@ func (fc *funcCtx) frameChecked() bool {
 			return false
 		}
 	}
-	for _, p := range fc.fn.Params {
-		if _, ok := p.Type().Underlying().(*types.Slice); ok {
-			return true
-		}
-	}
-	return false
+	return true
 }
 
 // ---- instruction semantics ----
@@ -574,8 +577,8 @@ func (fc *funcCtx) exec(st *State, ins ssa.Instruction) (stop bool) {
 			fc.abort("array value indexing not supported")
 		}
 		idx := fc.scalar(st, x.Index)
-		fc.oblige(st, "bounds", fc.site(x.Pos(), "index"), and(app("<=", "0", idx.T), app("<", idx.T, app("str.len", b.T))), "string index in range")
-		st.regs[x] = Sc{app("str.at", b.T, idx.T), SInt}
+		fc.oblige(st, "bounds", fc.site(x.Pos(), "index"), and(app("<=", "0", idx.T), app("<", idx.T, app("gs.len", b.T))), "string index in range")
+		st.regs[x] = Sc{app("gs.at", b.T, idx.T), SInt}
 	case *ssa.Lookup:
 		fc.lookup(st, x)
 	case *ssa.Slice:
@@ -727,7 +730,7 @@ func (fc *funcCtx) binTerm(st *State, op token.Token, a, b Sc, t types.Type, pos
 	switch op {
 	case token.ADD:
 		if a.S == SStr {
-			return Sc{app("str.cat", a.T, b.T), SStr}
+			return Sc{app("gs.cat", a.T, b.T), SStr}
 		}
 		return fc.wrap(st, Sc{app("+", a.T, b.T), a.S}, t)
 	case token.SUB:
@@ -746,7 +749,7 @@ func (fc *funcCtx) binTerm(st *State, op token.Token, a, b Sc, t types.Type, pos
 	case token.EQL, token.NEQ:
 		var eq string
 		if a.S == SStr {
-			eq = app("str.eq", a.T, b.T)
+			eq = app("gs.eq", a.T, b.T)
 		} else {
 			eq = app("=", a.T, b.T)
 		}
@@ -758,13 +761,13 @@ func (fc *funcCtx) binTerm(st *State, op token.Token, a, b Sc, t types.Type, pos
 		if a.S == SStr {
 			switch op {
 			case token.LSS:
-				return Sc{app("str.lt", a.T, b.T), SBool}
+				return Sc{app("gs.lt", a.T, b.T), SBool}
 			case token.LEQ:
-				return Sc{not(app("str.lt", b.T, a.T)), SBool}
+				return Sc{not(app("gs.lt", b.T, a.T)), SBool}
 			case token.GTR:
-				return Sc{app("str.lt", b.T, a.T), SBool}
+				return Sc{app("gs.lt", b.T, a.T), SBool}
 			default:
-				return Sc{not(app("str.lt", a.T, b.T)), SBool}
+				return Sc{not(app("gs.lt", a.T, b.T)), SBool}
 			}
 		}
 		return Sc{app(map[token.Token]string{token.LSS: "<", token.LEQ: "<=", token.GTR: ">", token.GEQ: ">="}[op], a.T, b.T), SBool}
@@ -832,7 +835,7 @@ func (fc *funcCtx) convert(st *State, x *ssa.Convert) Value {
 		// string(rune): one byte for ASCII
 		s := v.(Sc)
 		fc.oblige(st, "ascii", "string/"+fc.site(x.Pos(), "call"), and(app("<=", "0", s.T), app("<", s.T, "128")), "string(rune) is modelled for ASCII only")
-		return Sc{app("str.chr", s.T), SStr}
+		return Sc{app("gs.chr", s.T), SStr}
 	case fok && tok && fs == SStr && ts == SStr:
 		return v
 	}
@@ -842,13 +845,13 @@ func (fc *funcCtx) convert(st *State, x *ssa.Convert) Value {
 			s := v.(Sc)
 			eb, _ := sl.Elem().Underlying().(*types.Basic)
 			if eb != nil && eb.Kind() == types.Int32 {
-				fc.oblige(st, "ascii", "[]rune/"+fc.site(x.Pos(), "call"), app("str.ascii", s.T), "[]rune(string) is modelled for ASCII only")
+				fc.oblige(st, "ascii", "[]rune/"+fc.site(x.Pos(), "call"), app("gs.ascii", s.T), "[]rune(string) is modelled for ASCII only")
 			}
-			res := fc.alloc(st, sl.Elem(), app("str.len", s.T), app("str.len", s.T), false)
+			res := fc.alloc(st, sl.Elem(), app("gs.len", s.T), app("gs.len", s.T), false)
 			h := fc.heap(st, SInt)
 			nh := st.freshConst("heap", heapSort(SInt))
 			st.assume(fmt.Sprintf("(forall ((r Int)) (! (=> (not (= r %s)) (= (select %s r) (select %s r))) :pattern ((select %s r))))", res.Ref, nh, h, nh))
-			st.assume(fmt.Sprintf("(forall ((i Int)) (! (=> (and (<= 0 i) (< i (str.len %s))) (= (select (select %s %s) i) (str.at %s i))) :pattern ((select (select %s %s) i))))", s.T, nh, res.Ref, s.T, nh, res.Ref))
+			st.assume(fmt.Sprintf("(forall ((i Int)) (! (=> (and (<= 0 i) (< i (gs.len %s))) (= (select (select %s %s) i) (gs.at %s i))) :pattern ((select (select %s %s) i))))", s.T, nh, res.Ref, s.T, nh, res.Ref))
 			st.heaps[SInt] = nh
 			res.Str = s.T
 			return res
@@ -861,13 +864,10 @@ func (fc *funcCtx) convert(st *State, x *ssa.Convert) Value {
 			h := fc.heap(st, SInt)
 			if eb != nil && eb.Kind() == types.Int32 {
 				fc.oblige(st, "ascii", "string/"+fc.site(x.Pos(), "call"),
-					fmt.Sprintf("(forall ((i Int)) (=> (and (<= 0 i) (< i %s)) (and (<= 0 (select (select %s %s) (+ %s i))) (< (select (select %s %s) (+ %s i)) 128))))", sv.Len, h, sv.Ref, sv.Off, h, sv.Ref, sv.Off),
+					fmt.Sprintf("(forall ((i Int)) (=> (and (<= 0 i) (< i %s)) (and (<= 0 (select (select %s %s) %s)) (< (select (select %s %s) %s) 128))))", sv.Len, h, sv.Ref, elemIx(sv.Off, "i"), h, sv.Ref, elemIx(sv.Off, "i")),
 					"string([]rune) is modelled for ASCII only")
 			}
-			r := st.freshConst("str", SStr)
-			st.assume(app("=", app("str.len", r), sv.Len))
-			st.assume(fmt.Sprintf("(forall ((i Int)) (! (=> (and (<= 0 i) (< i %s)) (= (str.at %s i) (select (select %s %s) (+ %s i)))) :pattern ((str.at %s i))))", sv.Len, r, h, sv.Ref, sv.Off, r))
-			return Sc{r, SStr}
+			return fc.stringOfSlice(st, sv)
 		}
 	}
 	fc.abort("unsupported conversion %s -> %s", from, to)
@@ -880,12 +880,12 @@ func (fc *funcCtx) indexAddr(st *State, x *ssa.IndexAddr) {
 	switch b := base.(type) {
 	case SliceV:
 		fc.oblige(st, "bounds", fc.site(x.Pos(), "index"), and(app("<=", "0", idx.T), app("<", idx.T, b.Len)), "index in range")
-		st.regs[x] = PtrV{Heap: true, Ref: b.Ref, Idx: plus(b.Off, idx.T), Elem: b.Elem}
+		st.regs[x] = PtrV{Heap: true, Ref: b.Ref, Idx: elemIx(b.Off, idx.T), Elem: b.Elem}
 	case PtrV:
 		// pointer to an array-typed local: the array lives in a heap row
 		if av, ok := st.cells[b.Cell].(SliceV); ok && !b.Heap && len(b.Path) == 0 {
 			fc.oblige(st, "bounds", fc.site(x.Pos(), "index"), and(app("<=", "0", idx.T), app("<", idx.T, av.Len)), "index in range")
-			st.regs[x] = PtrV{Heap: true, Ref: av.Ref, Idx: plus(av.Off, idx.T), Elem: av.Elem}
+			st.regs[x] = PtrV{Heap: true, Ref: av.Ref, Idx: elemIx(av.Off, idx.T), Elem: av.Elem}
 			return
 		}
 		fc.abort("index address through unsupported pointer")
@@ -899,8 +899,8 @@ func (fc *funcCtx) lookup(st *State, x *ssa.Lookup) {
 	switch b := base.(type) {
 	case Sc: // string index
 		idx := fc.scalar(st, x.Index)
-		fc.oblige(st, "bounds", fc.site(x.Pos(), "index"), and(app("<=", "0", idx.T), app("<", idx.T, app("str.len", b.T))), "string index in range")
-		st.regs[x] = Sc{app("str.at", b.T, idx.T), SInt}
+		fc.oblige(st, "bounds", fc.site(x.Pos(), "index"), and(app("<=", "0", idx.T), app("<", idx.T, app("gs.len", b.T))), "string index in range")
+		st.regs[x] = Sc{app("gs.at", b.T, idx.T), SInt}
 	case MapV:
 		key := fc.scalar(st, x.Index)
 		var val Value
@@ -952,15 +952,15 @@ func (fc *funcCtx) slice(st *State, x *ssa.Slice) {
 	switch b := base.(type) {
 	case Sc: // string
 		lo := "0"
-		hi := app("str.len", b.T)
+		hi := app("gs.len", b.T)
 		if x.Low != nil {
 			lo = fc.scalar(st, x.Low).T
 		}
 		if x.High != nil {
 			hi = fc.scalar(st, x.High).T
 		}
-		fc.oblige(st, "bounds", fc.site(x.Pos(), "slice"), and(app("<=", "0", lo), app("<=", lo, hi), app("<=", hi, app("str.len", b.T))), "slice bounds in range")
-		st.regs[x] = Sc{app("str.sub", b.T, lo, hi), SStr}
+		fc.oblige(st, "bounds", fc.site(x.Pos(), "slice"), and(app("<=", "0", lo), app("<=", lo, hi), app("<=", hi, app("gs.len", b.T))), "slice bounds in range")
+		st.regs[x] = Sc{app("gs.sub", b.T, lo, hi), SStr}
 	case SliceV:
 		lo := "0"
 		hi := b.Len
@@ -975,7 +975,7 @@ func (fc *funcCtx) slice(st *State, x *ssa.Slice) {
 	case PtrV:
 		if sv, ok := st.cells[b.Cell].(Sc); ok && sv.S == SStr && !b.Heap && x.Low == nil && x.High == nil {
 			// byte array whose content is known as a string (e.g. a digest): view it as bytes
-			res := fc.alloc(st, types.Typ[types.Uint8], app("str.len", sv.T), app("str.len", sv.T), false)
+			res := fc.alloc(st, types.Typ[types.Uint8], app("gs.len", sv.T), app("gs.len", sv.T), false)
 			res.Str = sv.T
 			st.regs[x] = res
 			return
@@ -1009,12 +1009,12 @@ func (fc *funcCtx) next(st *State, x *ssa.Next) {
 	if it.Kind == "string" {
 		s := it.Over.(Sc)
 		pos := st.cells[it.Key].(Sc)
-		okT := app("<", pos.T, app("str.len", s.T))
+		okT := app("<", pos.T, app("gs.len", s.T))
 		// range over string decodes UTF-8; modelled for ASCII bytes only
-		st2facts := implies(okT, app("<", app("str.at", s.T, pos.T), "128"))
+		st2facts := implies(okT, app("<", app("gs.at", s.T, pos.T), "128"))
 		fc.oblige(st, "ascii", "range/"+fc.loopNameFor(x.Block()), st2facts, "range over string is modelled for ASCII only")
 		st.cells[it.Key] = Sc{fmt.Sprintf("(ite %s (+ %s 1) %s)", okT, pos.T, pos.T), SInt}
-		st.regs[x] = TupleV{Sc{okT, SBool}, pos, Sc{app("str.at", s.T, pos.T), SInt}}
+		st.regs[x] = TupleV{Sc{okT, SBool}, pos, Sc{app("gs.at", s.T, pos.T), SInt}}
 		return
 	}
 	// map iteration: an arbitrary not-yet-visited key; order is not modelled
@@ -1085,4 +1085,20 @@ func (fc *funcCtx) doReturn(st *State, x *ssa.Return) {
 		fc.oblige(st, "post", clauseLabel(en, i), g, "postcondition: "+en.Src)
 	}
 	fc.returnGhostChecks(st)
+}
+
+// stringOfSlice: the text of a byte/rune slice as a string value. Conversions of
+// the same slice in the same heap share one constant, so that spec functions
+// applied to them agree.
+func (fc *funcCtx) stringOfSlice(st *State, sv SliceV) Sc {
+	h := fc.heap(st, SInt)
+	key := "strof:" + sv.Ref + "|" + sv.Off + "|" + sv.Len + "|" + h
+	if v, ok := st.ghost[key].(Sc); ok {
+		return v
+	}
+	r := st.freshConst("str", SStr)
+	st.assume(app("=", app("gs.len", r), sv.Len))
+	st.assume(fmt.Sprintf("(forall ((i Int)) (! (=> (and (<= 0 i) (< i %s)) (= (gs.at %s i) (select (select %s %s) %s))) :pattern ((gs.at %s i))))", sv.Len, r, h, sv.Ref, elemIx(sv.Off, "i"), r))
+	st.ghost[key] = Sc{r, SStr}
+	return Sc{r, SStr}
 }
